@@ -44,7 +44,9 @@ SubmitClauses(e, S) ==
   LET k == Kind(e)
       rows == RowsOfKind(S.decl, k, e.side)
       kn == Knife(e.p, e.cur)
-  IN IF k = "entry"
+  IN IF e.liq            \* the simulator's liquidation order (isolated margin): not a request of the strategy, no routing
+     THEN If(e.ro /\ e.type = "MARKET" /\ e.pq # 0 /\ e.side = ClosingSide(e.pq) /\ e.q = SAbs(e.pq), "liquidation-order-shape")
+     ELSE IF k = "entry"
      THEN \* a market entry carries the price of the moment, a resting entry the declared price
           LET cand == {i \in DOMAIN rows : rows[i][1] = e.q /\ (e.type = "MARKET" \/ rows[i][2] = e.p)}
               ok == {i \in cand : Knife(rows[i][2], e.cur) \/ e.type = EntryType(e.side, rows[i][2], e.cur)}
@@ -72,13 +74,17 @@ IsExit(o) == o.via # "none" \/ o.ro
 FlatClauses(act) == If(\A i \in DOMAIN act : ~IsExit(act[i]), "active-exit-when-flat")
 OfVia(act, via) == SelectSeq(act, LAMBDA o : o.via = via)
 
-ExitClauses(e, S, via, k, rows, has) ==
+ExitClauses(e, S, via, k, rows, has, at) ==
   LET a == OfVia(e.act, via)
       pool == a \o OfVia(S.exec, via)
-  IN IF ~has THEN If(a = <<>>, "stale-exit:" \o k \o ":no-declaration" \o Tag(S))
-     ELSE If(InjectiveMatch(a, rows, RowOrReplacement), "stale-exit:" \o k \o Tag(S))
-          \o If(\A i \in DOMAIN a : a[i].ro /\ a[i].side = ClosingSide(e.q), "active-exit-side:" \o k \o Tag(S))
-          \o If(InjectiveMatch(rows, pool, RowCovered), "declared-row-without-order:" \o k \o Tag(S))
+  IN IF ~has THEN If(a = <<>>, "stale-exit:" \o k \o ":no-declaration" \o at \o Tag(S))
+     ELSE If(InjectiveMatch(a, rows, RowOrReplacement), "stale-exit:" \o k \o at \o Tag(S))
+          \o If(\A i \in DOMAIN a : a[i].ro /\ a[i].side = ClosingSide(e.q), "active-exit-side:" \o k \o at \o Tag(S))
+          \o If(InjectiveMatch(rows, pool, RowCovered), "declared-row-without-order:" \o k \o at \o Tag(S))
+\* the same correspondence when the next step begins (before()): the hooks of the fills in between have all run their detection
+BeforeClauses(e, S) ==
+  IF e.q = 0 THEN FlatClauses(e.act)
+  ELSE ExitClauses(e, S, "stop-loss", "sl", e.sl, e.hl, ":at-before") \o ExitClauses(e, S, "take-profit", "tp", e.tp, e.ht, ":at-before")
 
 AfterClauses(e, S) ==
   (IF S.rest = {} THEN <<>>
@@ -86,14 +92,15 @@ AfterClauses(e, S) ==
         IN If(IF e.sce THEN c = S.rest ELSE c = {},
               IF e.sce THEN "entry-not-cancelled-though-should_cancel_entry" ELSE "entry-cancelled-though-not-should_cancel_entry"))
   \o (IF e.q = 0 THEN FlatClauses(e.act)
-      ELSE ExitClauses(e, S, "stop-loss", "sl", e.sl, e.hl) \o ExitClauses(e, S, "take-profit", "tp", e.tp, e.ht))
+      ELSE ExitClauses(e, S, "stop-loss", "sl", e.sl, e.hl, "") \o ExitClauses(e, S, "take-profit", "tp", e.tp, e.ht, ""))
 
 Step ==
   /\ l <= Len(Ev(tid))
   /\ LET e == Ev(tid)[l] IN
      CASE e.k = "step" ->
             /\ sym' = [sym EXCEPT ![e.s].rest = IF e.q = 0 THEN {e.rest[i] : i \in DOMAIN e.rest} ELSE {}]
-            /\ UNCHANGED <<vs, ords, stats>>
+            /\ vs' = AddAll(vs, l, BeforeClauses(e, sym[e.s]))
+            /\ UNCHANGED <<ords, stats>>
        [] e.k = "decl" ->
             /\ sym' = [sym EXCEPT ![e.s].decl = [buy |-> e.buy, sell |-> e.sell, sl |-> e.sl, tp |-> e.tp]]
             /\ UNCHANGED <<vs, ords, stats>>
